@@ -38,7 +38,16 @@ export async function check(group, records) {
     const base = { gid: group.gid, vid: v.vid, feature: `${group.feature}|${optLabel(v.options)}`, nontrivial: true };
     if (!rec || rec.status === 'missing') { out.push(inconclusive({ ...base, reason: 'no record' })); continue; }
     if (rec.status === 'parse_error' || rec.status === 'config_error') { out.push({ verdict: 'skip', ...base, reason: rec.status }); continue; }
-    if (rec.status === 'timeout') { out.push(inconclusive({ ...base, reason: 'watchdog fired (not reproduced as a crash)' })); continue; }
+    if (rec.status === 'timeout') {
+      // the driver's CPU watchdog (one case burnt > 20 CPU-seconds), confirmed alone twice at 40 CPU-seconds, while the same
+      // pipeline without the visitor finishes: the transform does not return. Anything less is inconclusive.
+      if (rec.watchdog === 'cpu' && rec.hang_confirmed === true && rec.baseline_survives === true) {
+        const tag = group.adv ? group.adv.tag : String(group.feature).split('|')[0];
+        out.push(violated({ ...base, oracle: 'transform returns (does not loop)', sig: `C08/hang/${tag}`, detail: { reruns: rec.hang_reruns, stderr: short(rec.stderr, 200) } }));
+      } else if (rec.watchdog === 'cpu' && rec.baseline_survives === false) out.push({ verdict: 'skip', ...base, reason: 'pipeline does not finish without the visitor either' });
+      else out.push(inconclusive({ ...base, reason: 'watchdog fired (not confirmed as a hang of the transform)' }));
+      continue;
+    }
     if (rec.status === 'panic') {
       if (rec.baseline_survives === false) { out.push({ verdict: 'skip', ...base, reason: 'pipeline panics without the visitor too' }); continue; }
       const loc = String(rec.panic.location).replace(/^.*\/(visitor|plugin)\//, '$1/').replace(/^.*registry\/src\/[^/]+\//, 'dep:');
@@ -86,6 +95,6 @@ export async function check(group, records) {
 export function meta({ tier }) {
   return {
     rule: 'Union workload: the C07 workload (odd forms x option combinations, grammar sampler, fixtures + token mutations, adversarial cyclic/unresolvable types, malformed directives, nesting to depth 512, very long attribute/child lists, real-world TSX) plus a sample of the semantic generators\' modules (C01-C05, C11, C13, C16, C18, C19, C20). Per execution: catch_unwind + process exit status (a dying worker is bisected, rerun twice alone, and compared with the same pipeline without the visitor), and the case is transformed three times (fresh Globals, fresh Globals again, a long-lived Globals that has already issued thousands of marks) with byte comparison of the final text and of the diagnostics; hook gauge: recursion depth of the four type resolvers. Adversarial cases tagged malformed-directive / unresolvable-type must end with >= 1 error diagnostic. distinct_nontrivial = distinct (input, options) the parser accepts.',
-    assumptions: ['domain = inputs that the same pipeline without the visitor survives', 'a watchdog firing that does not reproduce as a crash is inconclusive', 'fresh-process determinism is covered by the separate processes of the 16 shards and of the thorough tier\'s second pass'],
+    assumptions: ['domain = inputs that the same pipeline without the visitor survives', 'a case is a hang only when the driver\'s CPU-time watchdog (20 CPU-seconds for one case) fires, fires again twice alone at 40 CPU-seconds, and the pipeline without the visitor finishes; any other watchdog firing is inconclusive', 'fresh-process determinism is covered by the separate processes of the 16 shards and of the thorough tier\'s second pass'],
   };
 }
